@@ -107,44 +107,99 @@ class Minimiser:
                 if i is not None:
                     sc, best_v = cands[i], r["violation"]
                     changed = True
-        # shrink new frames (rows)
+        # shrink new frames (rows): remove chunks of rows, halving the chunk size (ddmin over row positions)
+        def without_rows(base, k, drop):
+            c = copy.deepcopy(base)
+            cop = c["ops"][k]
+            fid = cop["frame"]
+            nrows = F.n_rows(c["frames"][fid])
+            keep = [j for j in range(nrows) if j not in drop]
+            if not keep:
+                return None
+            c["frames"][fid] = F.take_rows(c["frames"][fid], keep)
+            remap = {old: new for new, old in enumerate(keep)}
+            if cop.get("kind") == "rows" and cop.get("tpos") is not None:
+                pairs = [(t, i) for t, i in zip(cop["tpos"], cop["idx"]) if t in remap]
+                cop["tpos"] = [remap[t] for t, _ in pairs]
+                cop["idx"] = [i for _, i in pairs]
+            elif cop.get("kind") == "rows":
+                cop["idx"] = [cop["idx"][j] for j in keep]
+            if cop.get("kind") == "unseen":
+                c["frames"][cop["twin"]] = F.take_rows(c["frames"][cop["twin"]], keep)
+                cop["polluted"] = {v: [remap[x] for x in rows if x in remap] for v, rows in cop["polluted"].items()}
+            # other ops evaluating the same frame object describe the same rows
+            for k2, o2 in enumerate(c["ops"]):
+                if k2 != k and o2.get("frame") == fid and o2["op"] == "eval":
+                    for key in ("idx", "tpos", "polluted"):
+                        if key in cop:
+                            o2[key] = copy.deepcopy(cop[key])
+            return c
+
         for k in range(len(sc["ops"])):
             op = sc["ops"][k]
             if op["op"] != "eval" or time.monotonic() > self.deadline:
                 continue
             fid = op["frame"]
-            progress = True
-            while progress and F.n_rows(sc["frames"][fid]) > 1 and time.monotonic() < self.deadline:
-                progress = False
+            chunk = max(1, F.n_rows(sc["frames"][fid]) // 2)
+            while chunk >= 1 and F.n_rows(sc["frames"][fid]) > 1 and time.monotonic() < self.deadline:
                 nrows = F.n_rows(sc["frames"][fid])
                 cands = []
-                for drop in range(nrows):
-                    c = copy.deepcopy(sc)
-                    keep = [j for j in range(nrows) if j != drop]
-                    c["frames"][fid] = F.take_rows(c["frames"][fid], keep)
-                    cop = c["ops"][k]
-                    if cop.get("kind") == "rows" and cop.get("tpos") is not None:
-                        tpos, idx = list(cop["tpos"]), list(cop["idx"])
-                        if drop in tpos:
-                            k = tpos.index(drop)
-                            tpos.pop(k)
-                            idx.pop(k)
-                        cop["tpos"] = [t - (t > drop) for t in tpos]
-                        cop["idx"] = idx
-                    elif cop.get("kind") == "rows":
-                        cop["idx"] = [cop["idx"][j] for j in keep]
-                    if cop.get("kind") == "unseen":
-                        c["frames"][cop["twin"]] = F.take_rows(c["frames"][cop["twin"]], keep)
-                        remap = {old: new for new, old in enumerate(keep)}
-                        cop["polluted"] = {v: [remap[x] for x in rows if x in remap]
-                                           for v, rows in cop["polluted"].items()}
-                    cands.append(c)
+                for a0 in range(0, nrows, chunk):
+                    c = without_rows(sc, k, set(range(a0, min(nrows, a0 + chunk))))
+                    if c is not None:
+                        cands.append(c)
                     if len(cands) >= 16:
                         break
                 i, r = self.test_many(cands)
                 if i is not None:
                     sc, best_v = cands[i], r["violation"]
-                    progress = True
+                    chunk = min(chunk, max(1, F.n_rows(sc["frames"][fid]) // 2))
+                else:
+                    chunk //= 2
+        # shrink training frames: rows no evaluation refers to, columns no formula uses
+        roots = {op["id"]: op for op in sc["ops"] if op["op"] in ("build", "rebuild") and "frame" in op}
+        for tid in sorted(set(op["frame"] for op in roots.values())):
+            if time.monotonic() > self.deadline:
+                break
+            ev_ops = [k for k, op in enumerate(sc["ops"]) if op["op"] == "eval" and op.get("kind") == "rows"
+                      and roots.get(op.get("root"), {}).get("frame") == tid]
+            referenced = set(i for k in ev_ops for i in sc["ops"][k]["idx"])
+            free = [i for i in range(F.n_rows(sc["frames"][tid])) if i not in referenced]
+            chunk = max(1, len(free) // 2)
+            while free and chunk >= 1 and time.monotonic() < self.deadline:
+                progressed = False
+                for a in range(0, len(free), chunk):
+                    drop = set(free[a:a + chunk])
+                    n = F.n_rows(sc["frames"][tid])
+                    if n - len(drop) < 2:
+                        continue
+                    keep = [i for i in range(n) if i not in drop]
+                    remap = {old: new for new, old in enumerate(keep)}
+                    c = copy.deepcopy(sc)
+                    c["frames"][tid] = F.take_rows(c["frames"][tid], keep)
+                    for k in ev_ops:
+                        c["ops"][k]["idx"] = [remap[i] for i in c["ops"][k]["idx"]]
+                    i, r = self.test_many([c])
+                    if i is not None:
+                        sc, best_v = c, r["violation"]
+                        free = [remap[x] for x in free if x not in drop]
+                        progressed = True
+                        break
+                if not progressed:
+                    chunk //= 2
+        used_cols = set()
+        for op in sc["ops"]:
+            if "fm" in op:
+                used_cols |= set(op["fm"]["used"])
+        if used_cols:
+            c = copy.deepcopy(sc)
+            for fid, spec in c["frames"].items():
+                kept = [col for col in spec["cols"] if col[0] in used_cols or col[0] in ("k", "f")]
+                if kept:
+                    spec["cols"] = kept
+            i, r = self.test_many([c])
+            if i is not None:
+                sc, best_v = c, r["violation"]
         # drop unused frames and clients' leftovers
         used = set()
         for op in sc["ops"]:
